@@ -523,7 +523,7 @@ func report(o *options, all []*hstate, known map[string]string, overlay map[stri
 			"unwinding_failures":            unwind,
 			"aborted_paths":                 aborts,
 			"inconclusive":                  len(v.inconcl) + len(v.tvBad),
-			"known_findings":                v.knownLines,
+			"known_findings":                nonNil(v.knownLines),
 			"known_region_models_benign_natively": knownBenign,
 			"exhaustive":                    false,
 			"explanation":                   "states = symbolic paths completed or pruned; transitions = SSA instructions interpreted; each path's assertions are decided by the SMT solver for all inputs satisfying its path condition, within the bounds listed per harness",
@@ -560,6 +560,13 @@ func report(o *options, all []*hstate, known map[string]string, overlay map[stri
 		return 3
 	}
 	return 0
+}
+
+func nonNil(a []string) []string {
+	if a == nil {
+		return []string{}
+	}
+	return a
 }
 
 func round1(f float64) float64 { return float64(int(f*10+0.5)) / 10 }
